@@ -15,9 +15,12 @@ class ClassDecl(object):
 
 
 class Loop(object):
-    def __init__(self, invariant=(), variant=None, fingerprint=None, modifies=None):
+    def __init__(self, invariant=(), variant=None, fingerprint=None, modifies=None, variant_opt=None):
         self.invariant = list(invariant)
         self.variant = variant
+        # termination measure checked only when the property asks for termination of every while loop
+        # (spec.require_variants, C05); a while loop with neither variant then yields a failing obligation
+        self.variant_opt = variant_opt
         self.fingerprint = fingerprint   # expected "<kind>:<source of iter/test>", checked
         self.modifies = modifies
 
